@@ -4,7 +4,8 @@ Trace inclusion for the read-ahead protocol (core Lean only): is an observed eve
 
   c02.lts <rd> <faults 0|1> <csizes> <script> <events>
      csizes  compressed member sizes joined by ',' (the chain: base_i ↦ base_i + csize_i; nothing elsewhere)
-     script  joined by ',':  n (nextBlock) | s<off> (Seek to file offset off) | c (Close) | m<id> (harness marker)
+     script  joined by ',':  n (nextBlock) | N (any number of nextBlock calls) | s<off> (Seek to file offset off)
+             | c (Close) | m<id> (harness marker)
      events  joined by ',':  M<id> (marker reached) | L<off|x>:<seeked 0|1>:<ok 0|1> (member load by the underlying reader)
      answer  `path states=<k> done=<0|1> stuck=<0|1> panic=<0|1>`  or  `reject <index of the first unmatched event>`
   c02.ltsx <rd> <faults> <csizes> <script>      exhaustive exploration: `states=<n> dead=<n> panic=<n> final=<n>`
@@ -22,6 +23,7 @@ def parseList {α} (f : String → Option α) (s : String) : Option (List α) :=
 
 def parseOp (s : String) : Option Op :=
   if s == "n" then some .next
+  else if s == "N" then some .nexts
   else if s == "c" then some .close
   else if s.startsWith "s" then (parseNat (s.drop 1).toString).map .seek
   else if s.startsWith "m" then (parseNat (s.drop 1).toString).map .note
